@@ -9,10 +9,13 @@ class C10(Spec):
     required_theorems = (
         "C10.single_op_per_key_refines", "C10.single_op_per_key_keeps_shape", "C10.listIndex_exact",
         "C10.multi_op_refines_partial",
+        "C10J.join_single_op_refines_partial", "C10J.join_single_op_refines_full_false",
+        "C10J.join_batch_refines_full_false",
         "C10.multi_op_refines_full_false_a", "C10.multi_op_refines_full_false_b", "C10.multi_op_refines_full_false_c",
     )
-    partial = ("C10.multi_op_refines_partial",)
-    refuted = ("C10.multi_op_refines_full_false_a", "C10.multi_op_refines_full_false_b", "C10.multi_op_refines_full_false_c")
+    partial = ("C10.multi_op_refines_partial", "C10J.join_single_op_refines_partial")
+    refuted = ("C10.multi_op_refines_full_false_a", "C10.multi_op_refines_full_false_b", "C10.multi_op_refines_full_false_c",
+               "C10J.join_single_op_refines_full_false", "C10J.join_batch_refines_full_false")
     level_text = ("Lean theorems about a model of the table row cache (rows / rowmap with the in-place mutations of the Go code), "
                   "Save (saveRow, addRow, delRow, updateRow, getModify, DelDupKey) and Query.ListIndex over the ordered store: if "
                   "each primary key is touched at most once between saves the table answers exactly like a map (Add fails iff "
@@ -27,25 +30,20 @@ class C10(Spec):
                   "generated sequences with 1..many operations per key between saves; the property predicates are evaluated on "
                   "the implementation against a map reference.")
     level_note = ("Row.Encode/DecodeRow/protobuf round trip is treated as the identity on rows (checked by reading rows back); "
-                  "primary keys without the '-' separator; index values of fixed width for lookup exactness; join tables are checked "
-                  "on the implementation only (reference predicates, no model).")
+                  "primary keys without the '-' separator; index values of fixed width for lookup exactness; join tables: model of "
+                  "join.go tied differentially; theorem for one buffered left-table operation per save (foreign key kept), "
+                  "right-table batches only refuted/ tied, not proved.")
     def runs(self, tier, seed):
-        # second run: join tables, predicate-only (no Lean model of join.go)
+        # second run: join tables (Model/C10Join.lean)
         return [dict(env={}), dict(env={"VERIF_C10_MODE": "join"})]
-
-    def drv_for(self, run):
-        import os
-        env = run.get("env", {})
-        if env.get("VERIF_C10_MODE") == "join" or os.path.basename(env.get("VERIF_REPLAY", "")).startswith("join_"):
-            return None
-        return self.drv
 
     assumptions = (
         "goleveldb/memdb behave as an ordered map with range iterators (C06)",
         "Row.Encode / DecodeRow / proto round trip is the identity on rows",
         "primary keys are non-empty and contain no '-'; index values have a fixed width in the lookup-exactness theorem",
-        "join tables (join.go) have no Lean model: they are driven predicate-only (generator keeps referential integrity "
-        "and touches each primary key of each table at most once between saves)",
+        "join tables: Go iterates left.rowmap (a map) in mergeCache; kv lists of join saves are compared sorted by key",
+        "join theorem covers one buffered left-table operation per save with the foreign key kept (S-C10d) on a db that "
+        "encodes the maps (JRep); saveRight's loop is covered by the tie and by the refuting witness only",
     )
 
 
